@@ -476,6 +476,9 @@ func (w *c12World) doAdvance(dt uint64) {
 // stored session document carries a bucket expiry, and it is the document's Expiration.
 func (w *c12World) doDocExpiry(n uint64) {
 	desc := fmt.Sprintf("GetExpiry(s%d)", n)
+	savedPending := w.pending
+	w.pending = desc
+	defer func() { w.pending = savedPending }()
 	key := w.auth.DocIDForSession(w.sids[n])
 	var sess LoginSession
 	out := "OExp None"
